@@ -6,7 +6,9 @@
    V = observation record of KTxn section B, D = its disk part.
    pre    observed through a read transaction before the write transaction began
    live   observed through a fresh read transaction after the transaction ended
-   reopen observed on a server reopened on the same file (bare: disk fields only)
+   reopen observed on a server reopened on the same file (bare: disk fields only), after live2 was taken
+   live2  observed after ONE following successful transaction on the same server; post2 = the same follow-up
+          transaction observed after a transaction that was begun and dropped (reference)
    reopenf (when rf = 1) full observation on a server reopened AND initialised on the same file
    post/postd  what the same transaction shows after a fault-free commit (reference run)     *)
 EXTENDS KTxn, Json, IOUtils
@@ -18,10 +20,12 @@ Failed == r.res # "ok"
 
 \* ---- L1: a transaction that did not report success leaves no trace
 L1Line == IF r.a = "ref" \/ ~Failed THEN TRUE
-          ELSE /\ NoTrace(r.pre, r.live, r.reopen)
-               /\ (r.rf = 1 => r.reopenf = r.pre)
+          ELSE /\ NoTrace(r.pre, r.live, r.live2, r.post2, r.reopen)
+               \* (a re-initialised server has committed its own start-up transaction: RUV excluded)
+               /\ (r.rf = 1 => \A f \in DOMAIN r.post2 \ {"ruv"} : r.reopenf[f] = r.post2[f])
 L1Sig  == IF r.live # r.pre THEN "live-differs"
-          ELSE IF r.reopen # DiskPart(r.pre) THEN "disk-differs" ELSE "reopened-differs"
+          ELSE IF r.live2 # r.post2 THEN "later-differs"
+          ELSE IF r.reopen # DiskPart(r.post2) THEN "disk-differs" ELSE "reopened-differs"
 
 \* ---- L2: the transcription of the commit order predicts exactly what is left behind
 L2Line ==
@@ -31,8 +35,8 @@ L2Line ==
          THEN r.res = "ok" /\ r.live = r.post /\ r.reopen = r.postd
          ELSE /\ r.res \in {"commiterr", "operr", "beginerr"}
               /\ r.live = PredictLive(r.kind, r.phase, r.point, r.pre, r.post)
-              /\ r.reopen = DiskPart(r.pre)
-    [] r.a \in {"abandon", "opfail"} -> r.live = r.pre /\ r.reopen = DiskPart(r.pre)
+              /\ r.reopen = DiskPart(r.post2)
+    [] r.a \in {"abandon", "opfail"} -> r.live = r.pre /\ r.reopen = DiskPart(r.post2)
     [] OTHER -> FALSE
 
 Init == l = 1
